@@ -33,13 +33,13 @@ type Options struct {
 
 // Program is the resolved program handed to the rules.
 type Program struct {
-	Dir   string
-	Fset  *token.FileSet
-	Pkgs  []*packages.Package          // repository packages, sorted by path
-	ByRel map[string]*packages.Package // "collect", "collect/cache", "cmd/refinery", ...
-	All   map[string]*packages.Package // every package by import path (deps too)
-	SSA   *ssa.Program
-	Whole bool
+	Dir     string
+	Fset    *token.FileSet
+	Pkgs    []*packages.Package          // repository packages, sorted by path
+	ByRel   map[string]*packages.Package // "collect", "collect/cache", "cmd/refinery", ...
+	All     map[string]*packages.Package // every package by import path (deps too)
+	SSA     *ssa.Program
+	Whole   bool
 	Overlay map[string][]byte
 
 	funcs map[*ssa.Function]bool // all functions (incl. anonymous) of repository packages
